@@ -60,6 +60,10 @@ def run(prop, tier, *, tags=None, norm=False, opts=None, specs=None, extra=None)
         if tier != "quick":
             specs += [((n, {"pops": True, "order": "sources-first", "fail_combos": "few"}), s) for n, s in pops
                       if e2fam.has_registered_dependency(s) and not n.startswith("fam")]
+    if tier != "quick":
+        # the three-slot family is explored with the reduced set of cut runs (as the quick tier does for every plan);
+        # the one/two-slot families and the curated shapes keep every (output, fresh_time) combination cut at every operation
+        specs = [(((n, {"fail_combos": "few"}) if n == "fam3" else n), s) for n, s in specs]
     # largest first (better load balance); VERIF_SEED rotates ties only - the explored set is seed independent
     def cost(item):
         n, sp = item
